@@ -78,7 +78,7 @@ func vfJudge(d *vfDecision) (st vfDecisionStats, sig, msg string) {
 		st.rejected = true
 		return st, "", ""
 	}
-	if d.Used+d.InCost <= d.MaxCost {
+	if vfFits(d.Used, d.InCost, d.MaxCost) {
 		st.kind = "fits"
 		if !d.Added {
 			return st, "C09/fitting-item-rejected", fmt.Sprintf("item of cost %d fits (used %d, MaxCost %d) but was not admitted", d.InCost, d.Used, d.MaxCost)
@@ -109,7 +109,7 @@ func vfJudge(d *vfDecision) (st vfDecisionStats, sig, msg string) {
 		if !ok {
 			return st, "C09/victim-not-resident", fmt.Sprintf("victim %d was not resident (residents %v)", v, vfKeys(R))
 		}
-		if used+d.InCost <= d.MaxCost {
+		if vfFits(used, d.InCost, d.MaxCost) {
 			return st, "C09/eviction-after-room-was-made", fmt.Sprintf("victim %d evicted although the newcomer (cost %d) already fits: used %d MaxCost %d", v, d.InCost, used, d.MaxCost)
 		}
 		if d.Est[v] > d.InEst {
@@ -140,14 +140,14 @@ func vfJudge(d *vfDecision) (st vfDecisionStats, sig, msg string) {
 		st.evictions++
 	}
 	if d.Added {
-		if used+d.InCost > d.MaxCost {
+		if !vfFits(used, d.InCost, d.MaxCost) {
 			return st, "C03/admitted-without-room", fmt.Sprintf("newcomer cost %d admitted with used %d MaxCost %d after evicting %v", d.InCost, used, d.MaxCost, d.Victims)
 		}
 		return st, "", ""
 	}
 	st.rejected = true
 	// turned away: only allowed if the newcomer's estimate is strictly lower than that of the least frequent candidate
-	if used+d.InCost <= d.MaxCost {
+	if vfFits(used, d.InCost, d.MaxCost) {
 		return st, "C09/rejected-although-room-was-made", fmt.Sprintf("newcomer cost %d rejected with used %d MaxCost %d after evicting %v", d.InCost, used, d.MaxCost, d.Victims)
 	}
 	maxE, minE := int64(-1), int64(1<<62)
@@ -170,6 +170,14 @@ func vfJudge(d *vfDecision) (st vfDecisionStats, sig, msg string) {
 		return st, "C09/rejected-without-being-outvoted", fmt.Sprintf("newcomer (estimate %d) rejected but no resident has a larger estimate (%v)", d.InEst, vfEsts(R, d.Est))
 	}
 	return st, "", ""
+}
+
+// vfFits: used + cost <= max without overflowing int64 (costs may be of the order of 2^62).
+func vfFits(used, cost, max int64) bool {
+	if used > max {
+		return cost <= 0 && used+cost <= max
+	}
+	return cost <= max-used
 }
 
 func vfKeys(m map[uint64]int64) []uint64 {
@@ -329,6 +337,19 @@ func vfGenPolicyCase(t *rapid.T) *vfPolicyCase {
 		sum += r.Cost
 		c.Pop = append(c.Pop, r)
 	}
+	huge := rapid.IntRange(0, 9).Draw(t, "huge") == 0
+	if huge {
+		// capacities and costs near the top of int64 ("every MaxCost", "arbitrary non-negative costs")
+		unit := int64(1) << rapid.IntRange(58, 61).Draw(t, "unit")
+		sum = 0
+		for i := range c.Pop {
+			c.Pop[i].Cost = unit * int64(rapid.IntRange(0, 2).Draw(t, "hugecost"))
+			if sum > (1<<62)-c.Pop[i].Cost {
+				c.Pop[i].Cost = 0
+			}
+			sum += c.Pop[i].Cost
+		}
+	}
 	slack := int64(0)
 	switch rapid.IntRange(0, 3).Draw(t, "slackmode") {
 	case 0:
@@ -338,6 +359,13 @@ func vfGenPolicyCase(t *rapid.T) *vfPolicyCase {
 		slack = int64(rapid.IntRange(0, 60).Draw(t, "slack"))
 	}
 	c.MaxCost = sum + slack
+	if huge {
+		c.MaxCost = rapid.SampledFrom([]int64{1<<63 - 1, 3 << 61, 1 << 62, sum + slack}).Draw(t, "hugemax")
+		if c.MaxCost < sum {
+			c.MaxCost = 1<<63 - 1
+		}
+		slack = c.MaxCost - sum
+	}
 	if c.MaxCost <= 0 {
 		c.MaxCost = 1
 	}
@@ -357,6 +385,9 @@ func vfGenPolicyCase(t *rapid.T) *vfPolicyCase {
 	switch rapid.IntRange(0, 9).Draw(t, "incostmode") {
 	case 0:
 		c.In.Cost = c.MaxCost + int64(rapid.IntRange(1, 5).Draw(t, "over"))
+		if c.In.Cost < 0 {
+			c.In.Cost = c.MaxCost // (MaxCost is the largest int64: nothing is larger)
+		}
 	case 1:
 		c.In.Cost = c.MaxCost
 	case 2:
@@ -366,7 +397,13 @@ func vfGenPolicyCase(t *rapid.T) *vfPolicyCase {
 	case 4:
 		c.In.Cost = 0
 	default:
-		c.In.Cost = int64(rapid.IntRange(1, int(c.MaxCost)).Draw(t, "incost"))
+		c.In.Cost = rapid.Int64Range(1, c.MaxCost).Draw(t, "incost")
+	}
+	if huge && rapid.Bool().Draw(t, "hugein") {
+		c.In.Cost = (int64(1) << rapid.IntRange(59, 62).Draw(t, "inunit")) - int64(rapid.IntRange(0, 1).Draw(t, "inminus"))
+	}
+	if c.In.Cost < 0 {
+		c.In.Cost = c.MaxCost // an int64 wrap-around of the generator, not a cost anybody can pass
 	}
 	c.In.Freq = rapid.IntRange(0, 20).Draw(t, "infreq")
 	if freqMode == 1 {
